@@ -6,11 +6,11 @@ using namespace vm;
 using namespace nix;
 
 namespace {
-struct Arr { DataArray a; std::string block; std::vector<long> shape; std::vector<int> kinds; std::vector<std::string> units; bool all_units = true; };   // kinds: 0 sampled 1 range 2 set 3 frame
+struct Arr { DataArray a; std::string block; std::vector<long> shape; std::vector<int> kinds; std::vector<std::string> units; bool all_units = true; bool alias = false; };   // kinds: 0 sampled 1 range 2 set 3 frame 4 alias range
 struct Breach { std::string name, entity_id; bool hard; bool dim_level; std::function<void()> h5_inject; };
 
 struct Gen {
-    Ctx &c; Rng &r; File f; std::string path; std::vector<Arr> arrays; std::vector<Tag> tags; std::vector<MultiTag> mtags; long serial = 0;
+    Ctx &c; Rng &r; File f; std::string path; std::vector<Arr> arrays; std::vector<Tag> tags; std::vector<MultiTag> mtags; std::vector<size_t> tag_arr, mtag_arr; long serial = 0;
     Gen(Ctx &cx) : c(cx), r(cx.rng) {}
     std::string nm(const char *p) { return std::string(p) + str(serial++); }
 
@@ -18,6 +18,12 @@ struct Gen {
         Arr A; A.block = b.name(); A.shape.resize(R); for (auto &e : A.shape) e = 2 + (long)r.u(4);
         A.a = b.createDataArray(nm("arr"), "nix.array", r.chance(0.5) ? DataType::Double : DataType::Int32, to_nd(A.shape));
         static const char *su[] = {"s", "ms", "us"}; static const char *ru[] = {"V", "mV", "uV"};
+        if (R == 1 && r.chance(0.25)) {   // the array is its own axis: alias range dimension over sorted data, unit and label are the array's
+            std::vector<double> v; double x = (double)r.range(-3, 3); for (long i = 0; i < A.shape[0]; i++) { v.push_back(x); x += (double)(1 + r.u(4)); }
+            A.a.setData(DataType::Double, v.data(), to_nd(A.shape), NDSize{0}); A.a.unit("mV"); A.a.label("signal"); A.a.appendAliasRangeDimension(); A.kinds.push_back(4); A.units.push_back("mV"); A.alias = true;
+            if (r.chance(0.3)) { A.a.polynomCoefficients({1.0, 2.0}); A.a.expansionOrigin(0.5); }
+            return A;
+        }
         for (size_t d = 0; d < R; d++) {
             long n = A.shape[d]; int k = with_units ? (int)r.u(2) : (int)r.weighted({3, 3, 3, 2});
             if (k == 0) { std::string u = r.pick(su); SampledDimension sd = A.a.appendSampledDimension(0.25 + r.real(), "time", u); if (r.chance(0.4)) sd.offset((double)r.range(-3, 3)); A.units.push_back(u); }
@@ -39,21 +45,23 @@ struct Gen {
             Source so = b.createSource(nm("src"), "nix.source"); so.createSource(nm("src"), "nix.source");
             int nt = 1 + (int)r.u(3);
             for (int i = 0; i < nt; i++) {   // tags: units only when every dimension of the referenced array carries a unit (strictest reading)
-                Arr &A = arrays[mine[r.u(mine.size())]]; size_t R = A.shape.size(); std::vector<double> p(R, 0.5), e(R, 1.0);
+                size_t ai = mine[r.u(mine.size())]; Arr &A = arrays[ai]; size_t R = A.shape.size(); std::vector<double> p(R, 0.5), e(R, 1.0);
                 Tag t = b.createTag(nm("tag"), "nix.tag", p); if (r.chance(0.6)) t.extent(e); t.addReference(A.a);
-                if (A.all_units && r.chance(0.7)) { std::vector<std::string> u; for (size_t d = 0; d < R; d++) { std::string base = A.units[d].substr(A.units[d].size() - 1); static const char *pre[] = {"", "m", "k", "u"}; u.push_back(std::string(r.pick(pre)) + base); } t.units(u); }
+                // units: convertible to the dimension's unit where the dimension has one; a dimension without unit (set, data frame) is not compared
+                // by the rule, so any valid SI unit may stand there
+                if (r.chance(0.7)) { std::vector<std::string> u; static const char *pre[] = {"", "m", "k", "u"}; static const char *anyu[] = {"mV", "s", "kHz", "A"}; for (size_t d = 0; d < R; d++) { if (A.units[d].empty()) { u.push_back(r.pick(anyu)); continue; } std::string base = A.units[d].substr(A.units[d].size() - 1); u.push_back(std::string(r.pick(pre)) + base); } t.units(u); }
                 if (r.chance(0.5)) { DataArray fd = b.createDataArray(nm("featdata"), "nix.array", DataType::Double, NDSize{3}); fd.appendSetDimension(); t.createFeature(fd, LinkType::Untagged); }
                 if (r.chance(0.4)) t.addSource(so);
-                tags.push_back(t);
+                tags.push_back(t); tag_arr.push_back(ai);
             }
             int nm_ = (int)r.u(3);
             for (int i = 0; i < nm_; i++) {
-                Arr &A = arrays[mine[r.u(mine.size())]]; size_t R = A.shape.size();
+                size_t ai = mine[r.u(mine.size())]; Arr &A = arrays[ai]; size_t R = A.shape.size();
                 DataArray pos = b.createDataArray(nm("positions"), "nix.positions", DataType::Double, R == 1 ? NDSize{(ndsize_t)3} : NDSize{(ndsize_t)3, (ndsize_t)R}); if (R == 1) pos.appendSetDimension(); else { pos.appendSetDimension(); pos.appendSetDimension(); }
                 MultiTag mt = b.createMultiTag(nm("mtag"), "nix.mtag", pos); mt.addReference(A.a);
-                if (A.all_units && r.chance(0.6)) { std::vector<std::string> u; for (size_t d = 0; d < R; d++) u.push_back(A.units[d]); mt.units(u); }
+                if (r.chance(0.6)) { std::vector<std::string> u; static const char *anyu[] = {"mV", "s", "kHz", "A"}; for (size_t d = 0; d < R; d++) u.push_back(A.units[d].empty() ? std::string(r.pick(anyu)) : A.units[d]); mt.units(u); }
                 if (r.chance(0.4)) { DataArray fd = b.createDataArray(nm("mfeat"), "nix.array", DataType::Double, NDSize{3}); fd.appendSetDimension(); mt.createFeature(fd, LinkType::Indexed); }
-                mtags.push_back(mt);
+                mtags.push_back(mt); mtag_arr.push_back(ai);
             }
             if (r.chance(0.6)) { Group g = b.createGroup(nm("grp"), "nix.group"); g.addDataArray(arrays[mine[0]].a); }
         }
@@ -63,7 +71,7 @@ struct Gen {
     // one random breach; returns false if not applicable
     bool breach(bool hard, std::vector<Breach> &out) {
         if (hard) {
-            int k = (int)r.u(9);
+            int k = (int)r.u(10);
             switch (k) {
             case 0: { Arr &A = arrays[r.u(arrays.size())]; c.op("breach dimension-count | rank " + str(A.shape.size())); bool referenced = false; for (auto &tg : tags) for (auto &ref : tg.references()) if (ref.id() == A.a.id()) referenced = true; for (auto &tg : mtags) for (auto &ref : tg.references()) if (ref.id() == A.a.id()) referenced = true;
                 for (auto &o : out) if (o.entity_id == A.a.id() || o.name.find("/" + A.a.name() + "/") != std::string::npos) referenced = true;   // another breach already sits on this array's descriptors
@@ -84,8 +92,15 @@ struct Gen {
                 for (size_t t = 0; t < 8; t++) { if (tags.empty() && mtags.empty()) return false; bool use_m = !mtags.empty() && (tags.empty() || r.chance(0.4));
                     std::vector<std::string> u = use_m ? mtags[r.u(mtags.size())].units() : std::vector<std::string>(); size_t which = 0;
                     auto taken = [&](const std::string &id) { for (auto &o : out) if (o.entity_id == id) return true; return false; };
-                    if (use_m) { MultiTag &mt = mtags[r.u(mtags.size())]; if (taken(mt.id()) || !mt.positions()) continue; u = mt.units(); if (u.empty()) continue; which = r.u(u.size()); std::string base = u[which].substr(u[which].size() - 1); u[which] = base == "V" ? "ms" : "mV"; c.op("breach tag-unit-not-convertible multi_tag | unit " + str(which + 1) + " of " + str(u.size())); mt.units(u); out.push_back({"tag-unit/unit" + str(which + 1) + "of" + str(u.size()), mt.id(), true, false, nullptr}); return true; }
-                    Tag &tg = tags[r.u(tags.size())]; if (taken(tg.id())) continue; u = tg.units(); if (u.empty()) continue; which = r.u(u.size()); std::string base = u[which].substr(u[which].size() - 1); u[which] = base == "V" ? "ms" : "mV"; c.op("breach tag-unit-not-convertible tag | unit " + str(which + 1) + " of " + str(u.size())); tg.units(u); out.push_back({"tag-unit/unit" + str(which + 1) + "of" + str(u.size()), tg.id(), true, false, nullptr}); return true; }
+                    // the breached entry must face a dimension that has a unit (entries facing a set / data-frame dimension are not compared)
+                    auto pick_dim = [&](const Arr &A, size_t n, size_t &which, bool &behind) { std::vector<size_t> cand; for (size_t d = 0; d < n && d < A.units.size(); d++) if (!A.units[d].empty()) cand.push_back(d); if (cand.empty()) return false; which = r.pick(cand); behind = false; for (size_t d = 0; d < which; d++) if (A.units[d].empty()) behind = true; return true; };
+                    if (use_m) { size_t ti = r.u(mtags.size()); MultiTag &mt = mtags[ti]; if (taken(mt.id()) || !mt.positions()) continue; u = mt.units(); if (u.empty()) continue; const Arr &A = arrays[mtag_arr[ti]]; bool behind = false; if (!pick_dim(A, u.size(), which, behind)) continue; std::string base = A.units[which].substr(A.units[which].size() - 1); u[which] = base == "V" ? "ms" : "mV"; c.op(std::string("breach tag-unit-not-convertible multi_tag") + (behind ? " behind-unitless-dimension" : "") + " | unit " + str(which + 1) + " of " + str(u.size())); mt.units(u); out.push_back({"tag-unit/unit" + str(which + 1) + "of" + str(u.size()) + (behind ? "/behind-unitless-dimension" : ""), mt.id(), true, false, nullptr}); return true; }
+                    size_t ti = r.u(tags.size()); Tag &tg = tags[ti]; if (taken(tg.id())) continue; u = tg.units(); if (u.empty()) continue; const Arr &A = arrays[tag_arr[ti]]; bool behind = false; if (!pick_dim(A, u.size(), which, behind)) continue; std::string base = A.units[which].substr(A.units[which].size() - 1); u[which] = base == "V" ? "ms" : "mV"; c.op(std::string("breach tag-unit-not-convertible tag") + (behind ? " behind-unitless-dimension" : "") + " | unit " + str(which + 1) + " of " + str(u.size())); tg.units(u); out.push_back({"tag-unit/unit" + str(which + 1) + "of" + str(u.size()) + (behind ? "/behind-unitless-dimension" : ""), tg.id(), true, false, nullptr}); return true; }
+                return false; }
+            case 9: {   // unsorted ticks through the public API: the data of an aliased array
+                for (size_t t = 0; t < 8; t++) { Arr &A = arrays[r.u(arrays.size())]; if (!A.alias || A.shape[0] < 2 || A.a.dimensionCount() != 1) continue; std::string key = "unsorted-ticks-alias:" + A.a.id(); bool dup = false; for (auto &o : out) if (o.name == key || o.entity_id == A.a.id()) dup = true; if (dup) continue;
+                    std::vector<double> v; A.a.getData(v); std::swap(v[0], v[v.size() - 1]); if (std::is_sorted(v.begin(), v.end())) { v[0] = v[v.size() - 1] + 1; }
+                    c.op("breach unsorted-ticks alias (array data) | n=" + str(v.size())); A.a.setData(DataType::Double, v.data(), to_nd(A.shape), NDSize{0}); out.push_back({key, "unknown", true, true, nullptr}); return true; }
                 return false; }
             case 7: { if (mtags.empty()) return false; MultiTag &mt = mtags[r.u(mtags.size())]; for (auto &o : out) if (o.entity_id == mt.id()) return false; DataArray p = mt.positions(); if (!p) return false; Block b; for (auto &x : f.blocks()) if (x.hasMultiTag(mt)) b = x; c.op("breach multi-tag-without-positions"); b.deleteDataArray(p); out.push_back({"multi-tag-without-positions", mt.id(), true, false, nullptr}); return true; }
             case 8: { for (auto &x : f.blocks()) for (auto &t : x.tags()) if (t.featureCount()) { Feature ft = t.getFeature(0); DataArray d = ft.data(); if (!d) continue; Block b = x; c.op("breach feature-without-data"); std::string fid = ft.id(); b.deleteDataArray(d); out.push_back({"feature-without-data", fid, true, false, nullptr}); return true; } return false; }
@@ -136,7 +151,7 @@ void run_case(Ctx &c) {
     if (!any_hard) c.check(errs.empty(), mode == 2 ? "C19/sound/error-after-reopen" : "C19/soft-as-error/any", [&] { return "no hard rule is breached but the validator reports errors: " + msgs(errs); });
     c.nontrivial = true; g.f.close();
 }
-long ncases(const std::string &tier) { return tier == "quick" ? 200 : 5000; }
+long ncases(const std::string &tier) { return tier == "quick" ? 600 : 5000; }
 std::vector<std::string> witnesses() { return {"d11-tag-unit-first-dimension"}; }
 void run_witness(Ctx &c, const std::string &name) {
     File f = File::open(c.path("w.nix"), FileMode::Overwrite); Block b = f.createBlock("b", "t");
